@@ -653,6 +653,7 @@ package template
 //@     invariant i <= j && j <= end && end <= i1 && i1 <= len(s) && written <= j && entry(written) <= written && len(b) == slen(seq(b))
 //@     invariant rewritten: seqeq(cat(seq(b), sub(s, written, j)), cat(entry(cat(seq(b), sub(s, written, i))), ltupto(s, i, j)))
 //@     hint unfold: seqeq(ltupto(s, i, j), cat(ltupto(s, i, j - 1), ltpiece(s, j - 1)))
+//@     hint grows: seqeq(cat(seq(b), sub(s, written, j)), cat(before(cat(seq(b), sub(s, written, j))), ltpiece(s, j - 1)))
 //@     decreases end - j
 
 //@ func New(name string) (r *Template)
